@@ -187,11 +187,25 @@ class SQLDataStore(datastore.DataStore):
     dtq = dtq.where(self._trials_table.c.owner_id == study_resource.owner_id)
     dtq = dtq.where(self._trials_table.c.study_id == study_resource.study_id)
 
+    # Operations belong to the study as well; a study re-created under the same
+    # name must not see them.
+    op_delete_queries = []
+    for op_table in (
+        self._suggestion_operations_table,
+        self._early_stopping_operations_table,
+    ):
+      doq = op_table.delete()
+      doq = doq.where(op_table.c.owner_id == study_resource.owner_id)
+      doq = doq.where(op_table.c.study_id == study_resource.study_id)
+      op_delete_queries.append(doq)
+
     with self._lock:
       if not self._connection.execute(eq).fetchone()[0]:
         raise NotFoundError('Study %s does not exist.' % study_name)
       self._write_or_rollback(dsq)
       self._write_or_rollback(dtq)
+      for doq in op_delete_queries:
+        self._write_or_rollback(doq)
       self._connection.commit()
 
   def list_studies(self, owner_name: str) -> List[study_pb2.Study]:
